@@ -180,7 +180,7 @@ def rule_R4(ctx, f):
                     found = True
                     ctx.ob(rid, m + "|cardinality-rejects", rejecting(b, bad_edge), "a wrong number of values must lead to Err on every path", site=b.span_of_block(bi))
                     ws = b.calls_to(["Hasher::write", "Hasher::finish"])
-                    ctx.ob(rid, m + "|cardinality-first", all(b.dominates(good_edge, w.bb) for w in ws), "the cardinality test must dominate all hashing", site=b.span_of_block(bi))
+                    ctx.ob(rid, m + "|cardinality-first", not [w for w in ws if w.bb in b.reach_ps(bad_edge)] and all(w.bb in b.reach(good_edge) for w in ws), "no hashing may happen once the cardinality test has failed (and all of it after the test passed)", site=b.span_of_block(bi))
         ctx.ob(rid, m + "|cardinality-test", found, "%s must compare the number of supplied values with variable_labels.len()" % m, site=b.raw["span"]["at"])
     for m in ("hash_labels", "get_label_values"):
         b = f.body(MV + m)
